@@ -76,6 +76,46 @@ UNITS = {
             "CRC8.check": dict(qual="okdmr.dmrlib.etsi.crc.crc8:CRC8.check", params=["ba", "int"], ret="bool"),
         },
     ),
+    "Csbk": dict(
+        functions=[
+            ("okdmr.dmrlib.utils.bits_bytes", "bits_to_bytes"),
+            (_L2E + "csbk_opcodes", "CsbkOpcodes.as_bits"),
+            (_L2E + "csbk_opcodes", "CsbkOpcodes.from_bits"),
+            (_L2E + "feature_set_ids", "FeatureSetIDs.as_bits"),
+            (_L3E + "answer_response", "AnswerResponse.as_bits"),
+            (_L3E + "reason_code", "ReasonCode.as_bits"),
+            (_L3E + "dynamic_identifier", "DynamicIdentifier.as_bits"),
+            (_L3E + "dynamic_identifier", "DynamicIdentifier.from_bits"),
+            (_L3E + "channel_timing_opcode", "ChannelTimingOpcode.as_bits"),
+            (_L3E + "service_options", "ServiceOptions.__init__", dict(params=_INTFLAGS)),
+            (_L3E + "service_options", "ServiceOptions.from_bits"),
+            (_L3E + "service_options", "ServiceOptions.as_bits"),
+            (_PDU + "csbk", "CSBK.as_bits"),
+            (_PDU + "csbk", "CSBK.calculate_crc_ccit"),
+            # the argument forms CSBK.from_bits uses: flags as bits[i] (int) / `not bits[i]` (bool), the two dynamic identifiers
+            # as members (Channel Timing) or left at the int default, raw_data as the received bits (Hytera) or the bytes default
+            (_PDU + "csbk", "CSBK.__init__", dict(params={
+                "last_block": "int", "protect_flag": "int",
+                "csbk_content_follows_preambles": "bool", "target_address_is_individual": "bool",
+                "new_leader": "int",
+                "leader_dynamic_identifier": ("union", "int", ("enum", "DynamicIdentifier")),
+                "channel_timing_opcode": "int",
+                "source_dynamic_identifier": ("union", "int", ("enum", "DynamicIdentifier")),
+                "service_function": "int",
+                "raw_data": ("union", "bytes", "ba"),
+            })),
+            (_PDU + "csbk", "CSBK.from_bits"),
+        ],
+        classes=[
+            (_L3E + "service_options", "ServiceOptions"),
+            (_PDU + "csbk", "CSBK"),
+        ],
+        externals={
+            "CRC16.calculate": dict(qual="okdmr.dmrlib.etsi.crc.crc16:CRC16.calculate",
+                                    params=["bytes", ("enum", "CrcMasks")], ret="int"),
+            "bytes_to_bits": dict(qual="okdmr.dmrlib.utils.bits_bytes:bytes_to_bits", params=["bytes"], ret="ba"),
+        },
+    ),
 }
 
 
